@@ -39,18 +39,16 @@ RECURSIVE Join(_, _)
 Join(q, i) == IF i > Len(q) THEN "" ELSE q[i] \o Join(q, i + 1)
 
 B2N(b) == IF b THEN 1 ELSE 0
+Extents   == [k \in 1..Len(s.stmts) |-> <<s.stmts[k][1], s.stmts[k][2]>>]
 (* per statement: 1 = inserted verbatim (fenced block or `...`), 0 = must yield one equation *)
-VerbFlags == [k \in 1..Len(s.stmts) |->
-                LET a == s.stmts[k][1]
-                    b == s.stmts[k][2]
-                IN B2N(inp[a] = "`" /\ \E z \in VisAt(a, b) : inp[z] = "`" /\ \A i \in VisAt(a, b) : i <= z)]
+VerbFlags == [k \in 1..Len(s.stmts) |-> s.stmts[k][3]]
 
 (* what must happen: the set of legal outcome kinds *)
 Legal == IF s.err # "none" THEN <<"error">>
          ELSE IF Len(s.stmts) = 0 THEN <<"statements">>      \* nothing but blanks and comments: must return no equations
          ELSE <<"error", "statements">>                       \* own error, or exactly k blocks
 
-EmitRec == [s |-> Join(inp, 1), h |-> Len(pre), legal |-> Legal, k |-> Len(s.stmts), ext |-> s.stmts,
+EmitRec == [s |-> Join(inp, 1), h |-> Len(pre), legal |-> Legal, k |-> Len(s.stmts), ext |-> Extents,
             vb |-> VerbFlags, err |-> s.err, why |-> s.why]
 EmitInv == Done => PrintT(ToJson(EmitRec))
 =============================================================================
